@@ -131,6 +131,18 @@ def check(run):
                 else:
                     members.append(("dup", None, None) if members else ("garbage", b"", None))
             cases.append(members)
+        # an input that becomes unreadable part-way, cut at EVERY byte between its first and last block, followed by an intact input
+        # (with question / resource-record lists): the intact one must come through undisturbed whatever the reader was doing when
+        # the first one ended
+        cand = [f for f in pool if len(f["data"]) <= 1500 and f["dump"].count(" B{") >= 2 and ("qq=" in f["dump"] or "ra=" in f["dump"] or "qa=" in f["dump"])]
+        for f in sorted(cand, key=lambda f: len(f["data"]))[:(1 if quick else 4)]:
+            top, _ = cborgen.parse(f["data"])
+            blocks = top.children[2].children
+            fdump, ps, bs, _ = split_dump(f["dump"])
+            for cut in range(blocks[0].end, blocks[-1].end):
+                nb = sum(1 for b in blocks if b.end <= cut)
+                cases.append([("trunc", f["data"][:cut], " ".join([fdump + "".join(ps)] + bs[:nb] + ["E:end"])), ("ok", f["data"], f["dump"])])
+            run.count("tuples: input cut at every byte, then an intact input", blocks[-1].end - blocks[0].end)
         for f, g in twin_pairs:
             cases.append([("ok", f["data"], f["dump"]), ("ok", g["data"], g["dump"])])
             cases.append([("ok", g["data"], g["dump"]), ("ok", f["data"], f["dump"]), ("ok", g["data"], g["dump"])])
